@@ -119,6 +119,26 @@ def run_unit(ck, unit):
                 return ('violation', path, '%s: matches() panics on %s: %s' % (label, json.dumps(docj), n1.get('panic') or n2.get('panic')))
             return ('spurious', 'native evaluation does not panic (%s)' % path)
         ck.obligation(label + ':no-panic', tr.uni, v['panic'], sample={'rule': name, 'tree': rj['display'][:160]}, on_sat=on_sat)
+    # the same on documents whose strings are well-formed UTF-8 with multi-byte characters (byte offsets that are not
+    # character boundaries): the loaded tree of every template made of plain string predicates
+    fam = name.split('/', 1)[0]
+    if fam in ('single', 'list', 'list-all', 'list-of', 'list-mixed', 'sequence', 'modifier') and '?' not in yaml:
+        tr8 = TreeRunner(ck, Bounds(str_cap=3 if quick else 4, arr_cap=1, depth=1, utf8=2 if quick else 3))
+        tr8.uni.numstr_cap = 2
+        label = '%s utf8' % name
+        v8 = tr8.evaluate(base)
+        ck.extra['programs_utf8'] = ck.extra.get('programs_utf8', 0) + 1
+
+        def on_sat8(model):
+            docj = tr8.render_doc(model)
+            n1 = br.call(cmd='eval_tree', expr=base['expr'], idents=base['idents'], doc=docj, mode='flat')
+            n2 = br.call(cmd='eval', yaml=yaml, opts=[True, True, True, True], doc=docj, mode='flat')
+            path = ck.write_replay(safe(label), {'rule': yaml, 'opts': None, 'doc': docj, 'tree': base['display'], 'native_tree_eval': n1,
+                                                 'native_rule_eval_optimised': n2, 'mir_panics': [str(p) for _, p in v8['panics']][:3]})
+            if 'panic' in n1 or 'panic' in n2:
+                return ('violation', path, '%s: matches() panics on %s: %s' % (label, json.dumps(docj), n1.get('panic') or n2.get('panic')))
+            return ('spurious', 'native evaluation does not panic (%s)' % path)
+        ck.obligation(label + ':no-panic', tr8.uni, v8['panic'], on_sat=on_sat8)
 
 
 if __name__ == '__main__':
